@@ -290,6 +290,7 @@ func (v *validation) getValidators(msg *Message) []*validatorImpl {
 // validateWorker is an active goroutine performing inline validation
 func (v *validation) validateWorker() {
 	for {
+		verifYieldVal(v, verifValidateTake)
 		select {
 		case req := <-v.validateQ:
 			_ = v.validate(req.vals, req.src, req.msg, false, v.sendMsgBlocking)
